@@ -22,7 +22,7 @@ func TestC15(t *testing.T) {
 	mon.Main(t, mon.Check{
 		ID:    "C15",
 		Level: "exploration",
-		Rule: "three real connection types driven as net.Conn: (G) NoiseGrpcConn after real Client/ServerHandshake over an in-memory ProxyConn; (T) NoiseConn: client through mailbox.Dial with an in-memory dialer, server side wrapped as Listener.doHandshake does (hook); (L) the same pair through the real mailbox.Listener and mailbox.Dial over loopback TCP; (K) the plain mailbox connKit: real ClientConn and ServerConn (GBN inside) over the in-memory relay, no noise. For each, PRNG sequences of writes (sizes from {0,1,2,32767,32768,32769,65534,65535} and random, beyond 65535 up to 300000 on the TCP variant) and PRNG sequences of read-buffer sizes from {1,2,3,17,4096,32767,32768,32769,65535,100000} (+0..2). Oracles per Read: 0 <= n <= len(buf), bytes beyond n untouched, the bytes returned are the next bytes of the written stream; at the end the concatenation of reads equals the concatenation of writes; per Write: n == len(b) with a nil error, or an error; a write larger than one record on the gRPC variant returns ErrMaxMessageLengthExceeded and nothing of it reaches the reader, on the TCP variant it is chunked transparently. A twelfth of the cases inject a transport write timeout into one record of the gRPC variant (header or body, nothing or half of it accepted), the caller retries once, and the reader must see exactly the bytes the Write calls reported as written. Non-trivial = a transfer that used at least one read buffer smaller than a record and one larger; distinct = (variant, sizes hash).",
+		Rule: "three real connection types driven as net.Conn: (G) NoiseGrpcConn after real Client/ServerHandshake over an in-memory ProxyConn; (T) NoiseConn: client through mailbox.Dial with an in-memory dialer, server side wrapped as Listener.doHandshake does (hook); (L) the same pair through the real mailbox.Listener and mailbox.Dial over loopback TCP; (K) the plain mailbox connKit: real ClientConn and ServerConn (GBN inside) over the in-memory relay, no noise. For each, PRNG sequences of writes (sizes from {0,1,2,32767,32768,32769,65534,65535} and random, beyond 65535 up to 300000 on the TCP variant) and PRNG sequences of read-buffer sizes from {1,2,3,17,4096,32767,32768,32769,65535,100000} (+0..2). Oracles per Read: 0 <= n <= len(buf), bytes beyond n untouched, the bytes returned are the next bytes of the written stream; at the end the concatenation of reads equals the concatenation of writes; per Write: n == len(b) with a nil error, or an error; a write larger than one record on the gRPC variant returns ErrMaxMessageLengthExceeded and nothing of it reaches the reader, on the TCP variant it is chunked transparently. A twelfth of the cases interrupt a large write on the TCP variant with transport write timeouts and resume it with Flush/Write. A twelfth of the cases inject a transport write timeout into one record of the gRPC variant (header or body, nothing or half of it accepted), the caller retries once, and the reader must see exactly the bytes the Write calls reported as written. Non-trivial = a transfer that used at least one read buffer smaller than a record and one larger; distinct = (variant, sizes hash).",
 		Assumptions: []string{"a zero-length write produces an empty record; what Read returns for it (0 bytes) is not judged beyond the three clauses of the statement"},
 		NCases: func(tier string) int {
 			if tier == "thorough" {
@@ -169,7 +169,108 @@ func runC15WriteFault(c *mon.Case) {
 	}
 }
 
+// runC15WriteFaultTCP: on the TCP variant a large write is interrupted by
+// transport write timeouts inside its records; the sender resumes as the
+// Write/Flush contract says (Flush until done, then Write the rest) and the
+// reader must see every byte exactly once.
+func runC15WriteFaultTCP(c *mon.Case) {
+	rng := c.Rng
+	pass := eng.Entropy(rng)
+	da, db, a2b, _ := sim.NewDuplexPair()
+	keyC, keyS := eng.NewKey(rng), eng.NewKey(rng)
+	var wg sync.WaitGroup
+	var ce, se error
+	var cc *mailbox.NoiseConn
+	var sm *mailbox.Machine
+	wg.Add(2)
+	go func() {
+		defer wg.Done()
+		cc, ce = mailbox.Dial(keyC, &net.TCPAddr{IP: net.IPv4(127, 0, 0, 1), Port: 1}, pass, time.Second,
+			func(network, addr string, timeout time.Duration) (net.Conn, error) { return &pipeConn{da}, nil })
+	}()
+	go func() {
+		defer wg.Done()
+		cd := mailbox.NewConnData(keyS, nil, pass, []byte("auth"), nil, nil)
+		sm, se = mailbox.NewBrontideMachine(&mailbox.BrontideMachineConfig{
+			Initiator: false, HandshakePattern: cd.HandshakePattern(), ConnData: cd,
+			MinHandshakeVersion: mailbox.MinHandshakeVersion, MaxHandshakeVersion: mailbox.MaxHandshakeVersion,
+		})
+		if se == nil {
+			se = sm.DoHandshake(db)
+		}
+		if se != nil {
+			db.In.Close()
+			db.Out.Close()
+		}
+	}()
+	wg.Wait()
+	if ce != nil || se != nil {
+		c.Shard.Inconc(fmt.Sprintf("tcp noise handshake: %v / %v", ce, se))
+		return
+	}
+	sc := mailbox.VerifNewNoiseConn(&pipeConn{db}, sm)
+	total := 70000 + rng.Intn(200000)
+	data := eng.StreamBytes('t', 0, total)
+	// interrupt some of the underlying writes (header and body writes
+	// alternate), accepting a PRNG part of the bytes
+	base := len(a2b.Written)
+	faults := map[int]bool{}
+	for i := 0; i < 1+rng.Intn(4); i++ {
+		faults[rng.Intn(2*(total/65535+1))] = true
+	}
+	fr := rand.New(rand.NewSource(rng.Int63()))
+	fired := 0
+	a2b.WriteErr = func(idx int, p []byte) (int, error) {
+		if faults[idx-base] && len(p) > 0 {
+			delete(faults, idx-base)
+			fired++
+			return fr.Intn(len(p)), timeoutErr{}
+		}
+		return len(p), nil
+	}
+	var log []string
+	off := 0
+	for guard := 0; off < total && guard < 100; guard++ {
+		n, err := cc.Write(data[off:])
+		log = append(log, fmt.Sprintf("Write(%d)=(%d,%v)", total-off, n, err))
+		off += n
+		for err != nil {
+			var m int
+			m, err = cc.Flush()
+			log = append(log, fmt.Sprintf("Flush=(%d,%v)", m, err))
+			off += m
+			if guard++; guard > 100 {
+				break
+			}
+		}
+	}
+	a2b.Close()
+	var got []byte
+	buf := make([]byte, 32768)
+	for {
+		n, err := sc.Read(buf)
+		got = append(got, buf[:n]...)
+		if err != nil {
+			break
+		}
+	}
+	rep := map[string]any{"variant": "T-write-fault", "total": total, "calls": log, "faults_fired": fired}
+	if string(got) != string(data) {
+		c.Shard.Violate("contract|T|write-fault", fmt.Sprintf("a %d-byte write interrupted by %d transport write timeouts and resumed with Flush/Write: the reader received %d bytes, first difference at offset %d (sender's account of bytes written: %d): %v", total, fired, len(got), firstDiff(got, data), off, log), rep)
+	}
+	c.Shard.Count("write_fault_transfers_tcp", 1)
+	if fired > 0 {
+		c.Shard.Eval(fmt.Sprintf("TF|%d|%d", total, fired))
+	} else {
+		c.Shard.Eval("")
+	}
+}
+
 func runC15(c *mon.Case) {
+	if c.Idx%12 == 7 {
+		runC15WriteFaultTCP(c)
+		return
+	}
 	if c.Idx%12 == 1 {
 		runC15WriteFault(c)
 		return
@@ -345,7 +446,13 @@ func runC15Conn(c *mon.Case, variant string) {
 			total += s
 		}
 	}
-	rep := map[string]any{"variant": variant, "writes": sizes, "oversized_write_at": oversize, "from_client": fromA}
+	closeAfterWrite := variant == "L" && rng.Intn(2) == 0
+	if closeAfterWrite {
+		// make the writer run well ahead of the reader
+		sizes = append(sizes, 200000+rng.Intn(100000), 150000+rng.Intn(100000))
+		total += sizes[len(sizes)-1] + sizes[len(sizes)-2]
+	}
+	rep := map[string]any{"variant": variant, "writes": sizes, "oversized_write_at": oversize, "from_client": fromA, "writer_closes_after_last_write": closeAfterWrite}
 	bufs := []int{1, 2, 3, 17, 4096, 32767, 32768, 32769, 65535, 100000}
 	var viol []string
 	var vmu sync.Mutex
@@ -385,6 +492,11 @@ func runC15Conn(c *mon.Case, variant string) {
 			}
 			off += sz
 		}
+		// On the TCP variant the writer may hang up right after its last
+		// Write returned: a graceful close still delivers what was written.
+		if closeAfterWrite {
+			_ = w.Close()
+		}
 	}()
 	small, large := false, false
 	got := 0
@@ -398,6 +510,12 @@ func runC15Conn(c *mon.Case, variant string) {
 				return
 			}
 			bl := bufs[br.Intn(len(bufs))] + br.Intn(3)
+			if closeAfterWrite {
+				time.Sleep(200 * time.Microsecond)
+				if bl < 1000 {
+					bl = 4096
+				}
+			}
 			buf := make([]byte, bl)
 			for i := range buf {
 				buf[i] = 0xA5
